@@ -39,6 +39,20 @@ Definition be_u64 (d : bytes) (i : nat) : Z := be_u32 d i * 4294967296 + be_u32 
 Definition be_i64 (d : bytes) (i : nat) : Z :=
   let u := be_u64 d i in if u <? 9223372036854775808 then u else u - 18446744073709551616.
 
+(* Go fixed-width signed arithmetic: the value an int32 / int64 variable holds after an
+   operation whose mathematical result is z (two's-complement wrap). *)
+Definition wrap32 (z : Z) : Z := (z + 2147483648) mod 4294967296 - 2147483648.
+Definition wrap64 (z : Z) : Z := (z + 9223372036854775808) mod 18446744073709551616 - 9223372036854775808.
+
+(* AppendBatch: l.nextOffset = baseOffset + int64(batch.LastOffsetDelta) + 1
+   The int32 header field is widened to int64 BEFORE the additions; both additions are
+   int64 additions. [step] below uses the mathematical value base + lod + 1;
+   proofs/StorageProofs.v (advance_go_exact) shows the two agree whenever
+   0 <= base < 2^62 and lod is an int32, i.e. no wrap occurs for any accepted batch
+   as long as offsets stay below 2^62. Doing the +1 in int32 instead
+   (wrap32 (lod + 1)) is different: it is -2^31 for lod = 2^31-1. *)
+Definition advance_go (base lod : Z) : Z := wrap64 (wrap64 (base + wrap64 lod) + 1).
+
 (* binary.BigEndian.PutUint64(uint64(z)) *)
 Definition be64 (z : Z) : bytes :=
   let u := z mod 18446744073709551616 in
@@ -120,15 +134,17 @@ Definition art_key (fl : list batch) : Z := match fl with b :: _ => b_base b | [
 Definition last_off (fl : list batch) : Z := b_last (last fl (mkBatch 0 0 0 [])).
 
 Definition seg_body (bs : list batch) : bytes := flat_map b_bytes bs.
-Definition seg_msgs (bs : list batch) : Z := buf_msgs bs.
+(* BuildSegment: var totalMessages int32; totalMessages += batch.MessageCount *)
+Definition seg_msgs (bs : list batch) : Z := wrap32 (buf_msgs bs).
 
-(* IndexBuilder.MaybeAdd over the batches: (offset, position) entries *)
+(* IndexBuilder.MaybeAdd over the batches: (offset, position) entries; position is an
+   int32 in Go, the harness keeps segments far below 2^31 bytes *)
 Fixpoint index_from (interval since pos : Z) (first : bool) (bs : list batch) : list (Z * Z) :=
   match bs with
   | [] => []
   | b :: r =>
       let add := first || (interval <=? since) in
-      let since' := (if add then 0 else since) + b_count b in
+      let since' := wrap32 ((if add then 0 else since) + b_count b) in   (* sinceLast is an int32 *)
       let rest := index_from interval since' (pos + zlen (b_bytes b)) false r in
       if add then (b_base b, pos) :: rest else rest
   end.
@@ -399,6 +415,23 @@ Fixpoint nondecb (l : list Z) : bool :=
   match l with
   | [] => true
   | x :: r => match r with [] => true | y :: _ => y <=? x end && nondecb r
+  end.
+
+(* history variable for the C05 characterisation: [ov t] is true when, since thread t's
+   pending onFlush callback was created (by its commit, or by its empty Flush taking the
+   committed offset), ANOTHER thread's callback has reached the store. *)
+Definition ov_step (ov : nat -> bool) (e : event) : nat -> bool :=
+  match e with
+  | ECommit t => fun x => if Nat.eqb x t then false else ov x
+  | EFlushBegin t => fun x => if Nat.eqb x t then false else ov x
+  | ECallback t true => fun x => if Nat.eqb x t then ov x else true
+  | _ => ov
+  end.
+
+Fixpoint runG (s : state) (ov : nat -> bool) (evs : list event) : option (state * (nat -> bool)) :=
+  match evs with
+  | [] => Some (s, ov)
+  | e :: r => match step s e with Some s' => runG s' (ov_step ov e) r | None => None end
   end.
 
 (* the record set as a consumer walks it: frames delimited by the batchLength field
